@@ -79,6 +79,26 @@ func c11Run(p c11Plan) *common.Fail {
 				return common.Failf("layout-encode-stale", "cemi.Pack of %s into a buffer pre-filled with %#02x\n gives     %x\n reference %x", common.Show(lib), fill, buf, ref)
 			}
 		}
+		// 6-bit short data: the octet that holds it also holds the two low bits of the application control code; a
+		// first payload octet with bit 6 or 7 set (the application hands over a raw byte) must not reach those bits
+		if c.LData != nil && !c.LData.TPDU.Control && len(c.LData.TPDU.Data) > 0 {
+			for _, hi := range []byte{0x40, 0x80, 0xc0} {
+				wide := *c
+				ld := *c.LData
+				ld.TPDU.Data = append([]byte{}, c.LData.TPDU.Data...)
+				ld.TPDU.Data[0] |= hi
+				wide.LData = &ld
+				wlib := common.ToLibCemi(&wide)
+				wbuf := make([]byte, cemi.Size(wlib))
+				for i := range wbuf {
+					wbuf[i] = hi ^ 0x5a
+				}
+				cemi.Pack(wbuf, wlib)
+				if !bytes.Equal(wbuf, ref) {
+					return common.Failf("layout-short-data-leak", "cemi.Pack of %s (first payload octet %#02x: only its low six bits are carried)\n gives     %x\n reference %x", common.Show(wlib), ld.TPDU.Data[0], wbuf, ref)
+				}
+			}
+		}
 		var m cemi.Message
 		n, err := cemi.Unpack(ref, &m)
 		if err != nil {
